@@ -51,6 +51,10 @@ def _build_c09(inputs):
         else:
             raw = L.rw.build_roland_image(expand_roland(inputs["model"]))
         raw = raw + bytes(inputs.get("pad", 0))
+        if inputs.get("trim"):
+            # a trimmed dump: the unused tail of the last partition is missing (every referenced sector is still there)
+            raw = raw[:len(raw) - inputs["trim"]]
+        head = inputs.get("cue_header", "")
         res = {}
         with L.Workdir() as w:
             paths = {}
@@ -61,13 +65,13 @@ def _build_c09(inputs):
             with open(os.path.join(d1, "data.bin"), "wb") as f:
                 f.write(raw)
             with open(os.path.join(d1, "img.cue"), "w") as f:
-                f.write('FILE "data.bin" BINARY\n  TRACK 01 MODE1/2048\n    INDEX 01 00:00:00\n')
+                f.write(head + 'FILE "data.bin" BINARY\n  TRACK 01 MODE1/2048\n    INDEX 01 00:00:00\n')
             paths["cue->raw"] = os.path.join(d1, "img.cue")
             d2 = w.sub("cue_2352")
             with open(os.path.join(d2, "data.bin"), "wb") as f:
                 f.write(L.aw.wrap_2352(raw))
             with open(os.path.join(d2, "img.cue"), "w") as f:
-                f.write('FILE "data.bin" BINARY\n  TRACK 01 MODE1/2352\n    INDEX 01 00:00:00\n')
+                f.write(head + 'FILE "data.bin" BINARY\n  TRACK 01 MODE1/2352\n    INDEX 01 00:00:00\n')
             paths["cue->2352"] = os.path.join(d2, "img.cue")
             # a sampler CD-ROM with an audio demo track: data track + audio track is still a sampler image
             d3 = w.sub("cue_mixed")
@@ -76,7 +80,7 @@ def _build_c09(inputs):
             with open(os.path.join(d3, "img.cue"), "w") as f:
                 nsec = len(L.aw.wrap_2352(raw)) // 2352
                 mm, ss, ff = nsec // (75 * 60), (nsec // 75) % 60, nsec % 75
-                f.write('FILE "data.bin" BINARY\n  TRACK 01 MODE1/2352\n    INDEX 01 00:00:00\n'
+                f.write(head + 'FILE "data.bin" BINARY\n  TRACK 01 MODE1/2352\n    INDEX 01 00:00:00\n'
                         f'  TRACK 02 AUDIO\n    INDEX 01 {mm:02d}:{ss:02d}:{ff:02d}\n')
             paths["cue->2352+audio"] = os.path.join(d3, "img.cue")
             for name, p in paths.items():
@@ -113,7 +117,12 @@ def _oracle_c09(inputs, kind, val, env):
 
 def _small_c09(tier, seed, shard=(0, 1)):
     cases = [{"kind": "akai", "model": _base_akai()}, {"kind": "roland", "model": _base_roland()},
-             {"kind": "akai", "model": {"partitions": [{"volumes": [_vol("V", [_sample("ONE", 4026, 1)])]}]}, "pad": 0}]
+             {"kind": "akai", "model": {"partitions": [{"volumes": [_vol("V", [_sample("ONE", 4026, 1)])]}]}, "pad": 0},
+             # trimmed dumps (the last partition declares more sectors than the file holds) and the disc-level cue commands rippers write
+             {"kind": "akai", "model": _base_akai(4), "trim": 3 * 2048,
+              "cue_header": 'REM GENRE Sampler\nCATALOG 0000000000000\nPERFORMER "Vendor"\nTITLE "Sound Library 1"\n'},
+             {"kind": "akai", "model": {"partitions": [{"volumes": [_vol("V", [_sample("ONE", 4026, 1)])]}]}, "trim": 8192 + 1000,
+              "cue_header": 'TITLE "Disc"\nSONGWRITER "Nobody"\n'}]
     if tier != "quick":
         cases += [{"kind": "akai", "model": _base_akai(k), "pad": p} for k, p in ((1, 100), (2, 2048), (3, 1))]
         m = _base_roland()
@@ -130,9 +139,9 @@ def _c09(c):
 
 
 CONCRETE["e2e:C09"] = {
-    "build": _build_c09, "small": _small_c09, "oracle": _oracle_c09, "shards": 3,
+    "build": _build_c09, "small": _small_c09, "oracle": _oracle_c09, "shards": 5,
     "nontrivial": lambda i, s: s["kind"] == "return",
-    "bound": "3 (quick) / 8 (thorough) generated AKAI and Roland images x {raw, MODE1/2352, MDX, cue->raw, cue->2352}; image sizes that are "
+    "bound": "5 (quick) / 10 (thorough) generated AKAI and Roland images (two of them trimmed dumps, with disc-level CATALOG/PERFORMER/TITLE/REM lines in the cue sheets) x {raw, MODE1/2352, MDX, cue->raw, cue->2352}; image sizes that are "
              "and are not multiples of 2048; ls compared at every level reachable through printed names; exports compared byte for byte",
     "timeout_s": 120.0, "budget_quick": 200, "budget_thorough": 900,
 }
@@ -291,8 +300,9 @@ def _oracle_c15(inputs, kind, val, env):
         base = p["offset"]
         for vi, v in enumerate(p["volumes"]):
             vmodel = inputs["model"]["partitions"][pi]["volumes"][vi]
-            dir_end = max(base + (s + 1) * S for s in v["dir_sectors"])
             for fi, f in enumerate(v["files"]):
+                # the file's OWN 24-byte directory entry (entries are stored consecutively along the directory chain)
+                dir_end = base + v["dir_sectors"][(fi * 24) // S] * S + (fi * 24) % S + 24
                 fm = vmodel["files"][fi]
                 if fm["type"] not in (0xF3, 0x73):
                     continue
@@ -322,9 +332,15 @@ def _small_c15(tier, seed, shard=(0, 1)):
     cuts += [rnd.randrange(3 * 8192, 14 * 8192) for _ in range(10 if tier == "quick" else 120)]
     if tier == "quick":
         cuts = cuts[::2]
+    # directory AFTER the data of its first files: a cut inside a later entry must not cost the earlier, complete files
+    model4 = {"partitions": [{"size_sectors": 128, "volumes": [
+        _vol("VOL", [_sample("X", 3000, 7, sectors=[5]), _sample("Y", 6000, 8, sectors=[6, 7]), _sample("Z", 5000, 9, sectors=[10, 11])],
+             dir_sectors=[9])]}]}
     k = 0
-    for m in (model, model2):
-        for c in cuts:
+    for m, dsec in ((model, 3), (model2, 9), (model4, 9)):
+        # cuts inside the 24-byte entries of the volume's file table (after the table-end probe at entry+8, before the entry's end)
+        inside = [dsec * 8192 + 24 * j + o for j in range(4) for o in ((9, 10, 23) if tier == "quick" else (1, 8, 9, 10, 11, 16, 20, 23))]
+        for c in cuts + inside:
             k += 1
             if k % shard[1] == shard[0]:
                 yield {"model": m, "cut": c}
@@ -350,9 +366,11 @@ def _c15(c):
 CONCRETE["e2e:C15"] = {
     "build": _build_c15, "small": _small_c15, "oracle": _oracle_c15, "shards": 8,
     "nontrivial": lambda i, s: s["kind"] == "return",
-    "bound": "two AKAI images (directory after some of the data; a file listed first whose sectors come last; a stereo pair) cut at every "
-             "sector boundary, 1 byte after it and around the 140-byte header end for sectors 3..14, plus 10/120 random interior offsets",
-    "timeout_s": 60.0, "budget_quick": 250, "budget_thorough": 1500,
+    "bound": "three AKAI images (directory after some of the data; a file listed first whose sectors come last; a stereo pair) cut at every "
+             "sector boundary, 1 byte after it and around the 140-byte header end for sectors 3..14, inside the 24-byte directory entries (3/8 offsets "
+             "per entry), plus 10/120 random interior offsets; a two-partition image cut inside the second partition's tables; "
+             "'complete' is demanded of a file whose OWN directory entry, header and data sectors lie before the cut",
+    "timeout_s": 60.0, "budget_quick": 400, "budget_thorough": 2000,
 }
 
 
@@ -849,11 +867,11 @@ def _small_c14r(tier, seed, shard=(0, 1)):
     cases = []
     for smp in range(4):
         for area, size in (("dir", 32), ("param", 48)):
-            offs = range(size) if tier != "quick" else sorted(set(list(range(0, size, 5)) + [0, 15, 16, 36, 40, 42, 44, 45][: (8 if area == "param" else 3)]))
+            offs = range(size) if tier != "quick" else sorted(set(list(range(0, size, 5)) + ([0, 15, 16, 36, 40, 42, 44, 45] if area == "param" else [0, 15, 16, 26, 27, 28, 29, 30, 31])))
             for off in offs:
                 if off >= size:
                     continue
-                for v in ((0x00, 0x20, 0x41, 0x7F, 0x80, 0xFF, 0x06, 0x16) if tier != "quick" else (0x00, 0x80, 0xFF, 0x1F)):
+                for v in ((0x00, 0x01, 0x20, 0x41, 0x7F, 0x80, 0xFF, 0x06, 0x16) if tier != "quick" else (0x00, 0x01, 0x80, 0xFF, 0x1F)):
                     cases.append({"sample": smp, "area": area, "damage": [[off, v]]})
             for _ in range(3 if tier == "quick" else 30):
                 cases.append({"sample": smp, "area": area, "damage": [[rnd.randrange(size), rnd.randrange(256)] for _ in range(rnd.randint(2, 5))]})
@@ -871,9 +889,9 @@ CONCRETE["e2e:C14-roland"] = {
     "build": _build_c14r, "small": _small_c14r, "oracle": _oracle_c14r, "shards": 8,
     "nontrivial": lambda i, s: s["kind"] == "return",
     "bound": "a Roland performance with 4 samples (a partial using three slots + a partial using one); for each sample: bytes of its "
-             "32-byte directory entry and 48-byte parameter record set to 4 (quick: every 5th offset + the option/name/pointer bytes) / 8 values "
+             "32-byte directory entry and 48-byte parameter record set to 5 (quick: every 5th offset + the option/name/pointer/first-cluster bytes, boundary values 0 and 1 included) / 9 values "
              "(thorough: every offset), plus random multi-byte damage confined to the record",
-    "timeout_s": 120.0, "budget_quick": 280, "budget_thorough": 1800,
+    "timeout_s": 120.0, "budget_quick": 400, "budget_thorough": 2200,
 }
 
 
@@ -976,6 +994,9 @@ def _build_c20p(inputs):
         out = []
         with L.Workdir() as w:
             img = w.file("img.akai", raw)
+            if inputs.get("reuse"):
+                # one opened image object; every program listed once before the listings that are judged
+                img = L.open_with_history(img, ["ls"] + [f"ls:A:/PV/{n}" for n, _ in progs] + ["export"], w)
             for name, prog in progs:
                 o, e = L.do_ls(img, f"A:/PV/{name}")
                 if e is not None:
@@ -1023,6 +1044,8 @@ def _small_c20p(tier, seed, shard=(0, 1)):
         c["seed"] = 100 + k
         if k % shard[1] == shard[0]:
             yield c
+            if k % 3 == 0:
+                yield dict(c, reuse=True)
 
 
 @contract("e2e:C20-programs", props=["C20"], abstract=True)
@@ -1035,6 +1058,7 @@ CONCRETE["e2e:C20-programs"] = {
     "nontrivial": lambda i, s: s["kind"] == "return",
     "bound": "AKAI programs written by the independent program writer: every order of three keygroups over slots {0,1,2} and {0,2,4} (backward "
              "next-keygroup addresses, decoy blocks in unused slots), 0..4 active velocity zones, S1000 and S3000 program types, 4/60 random programs; "
-             "every header field, the keygroup count, every keygroup field in chain order and every non-empty zone compared with `ls`",
+             "every header field, the keygroup count, every keygroup field in chain order and every non-empty zone compared with `ls`; "
+             "a third of the cases again on ONE opened image object after an earlier listing of every program and an export",
     "timeout_s": 120.0, "budget_quick": 200, "budget_thorough": 1200,
 }
